@@ -156,7 +156,18 @@ def compare_nodes(a, b, path, out):
         bad("prefix", a.prefix, b.prefix)
     if dict(a.attributes) != dict(b.attributes):
         bad("attributes", dict(a.attributes), dict(b.attributes))
-    if dict(a.extras) != dict(b.extras):
+    def by_uri(n):
+        # qualified attributes are compared by expanded name: the parser hands the importer (URI, local name) pairs, and when
+        # two in-scope prefixes are bound to that URI either may be used to spell the key (C08 leaves that choice open too)
+        out_ = {}
+        for k, v in n.extras.items():
+            if ":" in k and not k.startswith("{"):
+                pf, local = k.split(":", 1)
+                out_[(xmlinfo.XML_NS if pf == "xml" else n.nsmap.get(pf, "unbound:" + pf), local)] = v
+            else:
+                out_[(None, k)] = v
+        return out_
+    if by_uri(a) != by_uri(b) or len(a.extras) != len(b.extras):
         bad("extras", dict(a.extras), dict(b.extras))
     if dict(a.nsmap) != dict(b.nsmap):
         bad("nsmap", dict(a.nsmap), dict(b.nsmap))
@@ -325,8 +336,15 @@ def check(g, case):
     # ---------------- EML exporter ----------------
     ge = eml_variant(g)
     if eml_ok(ge):
-        for rootname in (None, "eml"):
+        for rootname in (None, "eml", "nested-eml"):
             g3 = gtree.clone(ge)
+            if rootname == "nested-eml":
+                # an element called eml below the root is an ordinary element
+                if not g3["children"]:
+                    continue
+                last = [n_ for _, n_ in gtree.walk(g3)][-1]
+                last["name"] = "eml"
+                rootname = None
             if rootname:
                 g3["name"] = rootname
                 # (attribute names that also occur somewhere in the boiler-plate the exporter writes on an eml root)
@@ -375,6 +393,11 @@ def eml_compare(node, el, path, out):
         out.append({"path": list(path), "field": field, "expected": exp, "observed": obs})
     if el.local != node.name:
         bad("name", node.name, el.local)
+    if path and (el.prefix is not None or el.qattrs or el.nsdecl):
+        # only the document element is dressed up (eml:eml with its namespace boiler-plate); below it the exporter writes
+        # plain names and plain attributes
+        bad("name", node.name, {"qname": el.qname, "qualified_attributes": sorted(f"{k[0]}:{k[1]}" for k in el.qattrs),
+                                "namespace_declarations": sorted(el.nsdecl)})
     if el.attrs != dict(node.attributes):
         bad("attributes", dict(node.attributes), el.attrs)
     if not text_eq(el.text, node.content):
@@ -444,6 +467,10 @@ def scale_trees():
     for label, sh in gtree.scale_shapes():
         for deco in (1, 2):
             out.append((f"scale:{label}/deco{deco}", decorate(sh, deco)))
+    for sh in gtree.shapes_upto(3):
+        g = decorate(sh, 1)
+        g["ns"] = [["p", "urn:u1"], ["q", "urn:u1"], ["r", "urn:u2"]]          # two prefixes for one URI, both in use
+        out.append((f"scale:aliased-prefixes/{gtree.gsize(sh)}-{len(out)}", g))
     for k in (5, 9, 14):
         g = decorate(gtree.shapes_upto(3)[-1], 1)
         for i, (path, n) in enumerate(gtree.walk(g)):
